@@ -747,6 +747,17 @@ func (e *Engine) doGo(st *State, call *ssa.CallCommon, fnv Val, args []Val, pos 
 		st.escape(a)
 	}
 	st.escape(fnv)
+	// ghost record: spawned_<function name>(first argument) := true, if such a ghost state was declared
+	fname := key
+	if i := strings.LastIndex(fname, "."); i >= 0 {
+		fname = fname[i+1:]
+	}
+	gname := "G$spawned_" + strings.ReplaceAll(sanitize(fname), ".", "_")
+	gname = strings.ReplaceAll(gname, "$", "_")
+	gname = "G$" + strings.TrimPrefix(gname, "G_")
+	if _, ok := e.ghostHeaps[gname]; ok && len(args) > 0 {
+		st.setHeap(gname, "(store "+st.heap(gname)+" "+args[0].T+" true)")
+	}
 	c := e.lookupContract(key)
 	if c == nil {
 		return
@@ -757,16 +768,10 @@ func (e *Engine) doGo(st *State, call *ssa.CallCommon, fnv Val, args []Val, pos 
 		if err != nil {
 			continue
 		}
-		st.addCheck(&Check{Name: fmt.Sprintf("%s.go.%s.pre.%d", e.curFunc, lastSeg(key), r.Ord), Kind: "pre", Goal: t, Pos: posStr(e, pos), Tags: r.Tags, Func: e.curFunc, Clause: r.Text})
-	}
-	// ghost record: spawned$<name>(first arg) := true, if such a ghost state was declared
-	gname := "spawned_" + sanitize(lastSeg(key))
-	if _, ok := e.ghostHeaps[gname]; ok && len(args) > 0 {
-		k := args[len(args)-1]
-		if len(args) > 0 {
-			k = args[0]
+		if hasTag(r.Tags, "SAFETY") && !st.safetyOn() {
+			continue
 		}
-		st.setHeap(gname, "(store "+st.heap(gname)+" "+k.T+" true)")
+		st.addCheck(&Check{Name: fmt.Sprintf("%s.go.%s.pre.%d", e.curFunc, lastSeg(key), r.Ord), Kind: "pre", Goal: t, Pos: posStr(e, pos), Tags: r.Tags, Func: e.curFunc, Clause: r.Text})
 	}
 }
 
